@@ -45,6 +45,7 @@ int LLVMFuzzerTestOneInput(const uint8_t *data, size_t size) {
     vp_iface *f = &pool[runs++ % NCTX];
     size_t mtu = MTUS[data[0] & 7];
     if (data[0] & 8) mtu = 576 + (((size_t)data[1] << 8 | data[2]) % (9216 - 576 + 1));
+    if (data[0] & 16) mtu = 68 + (((size_t)data[1] << 8 | data[2]) % 508);      /* very small MTUs: 68 (the minimum Linux accepts) .. 575 */
     if (f->rxcap != mtu) {
         free(f->rxbuf);
         f->rxbuf = malloc(mtu);
